@@ -422,7 +422,8 @@ def ends_at_origin(g):
                     if res.get(last.callee) is True and sh is not None and sh.is_const() and sh.c == 0:
                         continue
                     if res.get(last.callee) is True and sh is not None:
-                        ok, why[f] = False, f"last inserted sequence {last!r} is shifted by {sh}"
+                        maybe_ = id(last.node) in g.liveness.maybe_nodes
+                        ok, why[f] = (None if maybe_ else False), f"last inserted sequence {last!r} is shifted by {sh}"
                         break
                     ok, why[f] = res.get(last.callee), f"last item {last!r}"
                     break
@@ -431,7 +432,9 @@ def ends_at_origin(g):
                     a, z = tail[-2].span()
                     if z is not None and z.is_const() and z.c == 0 and a is not None and a.is_const() and a.c == 1:
                         continue
-                    ok, why[f] = False, f"last Backward is {tail[-2]!r}, not [1, 0]"
+                    maybe_ = id(tail[-2].node) in g.liveness.maybe_nodes
+                    ok, why[f] = (None if maybe_ else False), f"last Backward is {tail[-2]!r}, not [1, 0]" + \
+                        (" [not definite: this production sits under a branch that may be dead]" if maybe_ else "")
                     break
                 ok, why[f] = None, f"production ends with {last!r}"
                 break
